@@ -196,6 +196,14 @@ class CloneModel:
                                 kind = "reset"
                             elif c == "remap":
                                 kind = "remap"
+                            elif not isinstance(v, ast.Name) and any(
+                                    isinstance(x, ast.Attribute) and x.attr.startswith("_") and any(
+                                        e2.kind == "write" and e2.field == x.attr and e2.op == "set" and e2.value is not None and _mentions_memo(e2.value)
+                                        for evs2 in fe.by_node.values() for e2 in evs2)
+                                    for x in ast.walk(v)):
+                                # rebuilt from a field that this very function has just redirected through memo
+                                # (`op._inner_pin = memo[ip]` … `self._pins = OrderedDict((op._inner_pin, op) for op in …)`)
+                                kind = "remap"
                             elif isinstance(v, ast.Name):
                                 # local rebuilt from memo lookups or filtered on memo membership
                                 uses_memo = False
